@@ -114,6 +114,8 @@ def showOut : Out → Option String
 /-- `trace <id>` (api.TraceError) never touches rules, gauges or handles: a no-op of both machines -/
 def isTrace : List String → Bool
   | ["trace", id] => id.toNat?.isSome
+  | ["idmode", m] =>        -- how the harness fills `Rule.ID` (shared / empty / positions): rules are their positions whatever the ids
+      m = "pos" || m = "same" || m = "empty" || m = "mixed"
   | ["when", id, k] =>      -- an exit handler (returning nil or an error) never changes the accounting
       id.toNat?.isSome && (k = "ok" || k = "err")
   | ["clock", ms] =>        -- the virtual clock moves (possibly backwards): the accounting does not depend on time at all
